@@ -16,6 +16,16 @@ CHECKS = {
          "Differential check against RefVerifier, which re-derives all challenges with its own schedule, evaluates relations (a),(b),(c) separately and folds the generators explicitly round by round. Deliveries: honest, honest-from-bad-witness, and adversarially modified in any field incl. compensating shifts."),
  "C04": ("fault_enumeration", "3.C04", "channel fault enumeration on accepted proofs: every single-bit flip, full field-level tamper catalogue, decoded-object identity oracle",
          "For each sampled accepted proof the channel adversary enumerates every single-bit flip of the encoding and the complete field-level catalogue (every slot x every perturbation, every pair swap, round surgery). Exhaustive over the fault space of each sampled proof."),
+ "C05": ("exploration", "3.C05", "deterministic simulation with misdelivery and verifier-side statement/context deviation faults; deviation-class oracle plus reference relations",
+         "An accepted proof is delivered to a verifier whose statement or bound context deviates in exactly one way from every class the property lists, to the verifier of an unrelated session, and to twin verifiers with the identical statement. Deviation => reject, identical => accept; every delivery is also held to the reference relations."),
+ "C06": ("exploration", "3.C06", "recorded Merlin operation histories of both roles checked against an executable reference schedule",
+         "The vendored Merlin records every transcript operation; the main-transcript history of prover and verifier (labels, exact absorbed bytes, challenge outputs) must equal the schedule RefSchedule builds from the statement and the received proof; rejected deliveries must be a prefix ending at the failed validation; r comes from a clone; follow-up challenges agree."),
+ "C07": ("exploration", "3.C07", "deterministic simulation of a batch-verifying server fed by many sessions, incl. adversarially correlated (+d/-d, zero-sum) members; oracle = conjunction of individual real verdicts",
+         "Batches of 0..N deliveries with drawn composition, order, size mix and faulty-member positions, including pairs/triples whose residuals cancel under equal weights. batch_verify must agree with the conjunction of fresh individual verifications."),
+ "C08": ("fault_enumeration", "3.C08", "hostile channel / stream / allocator fault enumeration in an isolated child process with intent log",
+         "Enumerates the (|L|,|R|) grid against circuits of every small size through verify and batch_verify, identity/special values in every slot, stream faults at every offset; samples random and structure-aware garbage under a counting allocator. No panic, abort or out-of-bounds; decode memory linear in input."),
+ "C16": ("exploration", "3.C16", "replica lockstep simulation: one call history applied step by step to real Prover, real Verifier and RefCS; missing-assignment fault",
+         "Two mirrored state machines driven in lockstep with a model; invariant after every call: equal handles and gate counts. Phase 2 executes inside real prove/verify for a sampled subset. F15 checks the MissingAssignment error and an unchanged allocation cursor."),
 }
 
 NOT_APPLICABLE = {
@@ -68,5 +78,5 @@ def main():
     print("wrote MANIFEST.json with", len(checks), "checks,", len(na), "not_applicable")
 
 import subprocess
-HOOK_COMMITS = [l.split()[0] for l in subprocess.run(["git", "-C", "/repo", "log", "--format=%h %s"], capture_output=True, text=True).stdout.splitlines() if "verif-hooks" in l]
+HOOK_COMMITS = [l.split()[0] for l in subprocess.run(["git", "-C", "/repo", "log", "--format=%h %s"], capture_output=True, text=True).stdout.splitlines() if l.split(" ",1)[1].startswith("verif-hooks")]
 main()
